@@ -132,6 +132,24 @@ theorem loaded_eq_get (b : Book σ) (s : σ) (hn : (Book.keys b).Nodup) : loaded
     · simp only [List.filter, h, decide_false, if_false]
       exact ih hn.2
 
+theorem mem_iff_get (b : Book σ) (hn : (Book.keys b).Nodup) (s : σ) (h : Hash) : (s, h) ∈ b ↔ b.get s = some h := by
+  induction b with
+  | nil => simp [get_nil]
+  | cons p b ih =>
+    unfold Book.keys at hn
+    rw [List.map_cons, List.nodup_cons] at hn
+    rw [get_cons, List.mem_cons]
+    by_cases e : p.1 = s
+    · have hb : s ∉ Book.keys b := e ▸ hn.1
+      have hnot : (s, h) ∉ b := fun hm => hb (List.mem_map_of_mem (f := (·.1)) hm)
+      simp only [e, if_true, Option.some.injEq, hnot, or_false]
+      constructor
+      · intro x; rw [← x]
+      · intro x; rw [← x, ← e]
+    · have : ¬ (s, h) = p := fun x => e (by rw [← x])
+      simp only [e, if_false, this, false_or]
+      exact ih hn.2
+
 /-! ### the invariant: the repository holds exactly what the book says -/
 
 theorem inv_init : Inv (St.init : St σ) := ⟨rfl, by simp [St.init, Book.keys]⟩
